@@ -113,6 +113,18 @@ PROPS = {
         ],
         "assumptions": ASSUME_COMMON,
     },
+    "C19": {
+        "level": "exploration",
+        "design_ref": "§6 C19",
+        "level_text": L_EXPL + "; 3 (quick) / 60 (thorough) generated programs of ~25 declarations each, every declaration checked in the function, trait+impl and stub ApiDescriptions at 29 versions and on two live servers; 10^4-2*10^5 doc comments and version ranges and 10^3-10^4 attribute sets through the real macro code at run time",
+        "level_note": "programs are restricted to the generator grammar (harness/decl/src/spec.rs, docgen.rs); trusts the own semver/range model and the doc-text conservation rule (non-whitespace characters conserved, word boundaries may move only at a line-end hyphen); equal from/until bounds, pre-release/build-metadata literals and declarations the macro refuses at compile time are not judged; compile time bounds the number of compiled programs",
+        "technique": "runtime monitoring: generated Rust programs declaring one API three ways, compiled against the tree, documents / route tables / live answers compared with each other and with a generator-side manifest; plus the real dropshot_endpoint code #[path]-included and executed on generated token streams with the emitted builder chain parsed back",
+        "engines": [
+            {"name": "c19-programs", "bin": "vmon_decl", "package": "decl", "floor": (40, 20)},
+            {"name": "c19-macro-rt", "bin": "vmon_macro_rt", "package": "macro_rt", "floor": (10000, 500), "optional": True},
+        ],
+        "assumptions": ASSUME_COMMON,
+    },
     "C06": {
         "level": "exploration",
         "design_ref": "§6 C06",
